@@ -280,8 +280,7 @@ def rule_slice(ctx, tu):
     ctx.floor(R, 6)
 
 
-def rule_py_seed(ctx, py):
-    R = "C08.PY-SEED"
+def rule_py_seed(ctx, py, R="C08.PY-SEED"):
     uses = []
     for m in py.mods.values():
         for f in m.funcs.values():
@@ -422,5 +421,7 @@ def run(ctx):
     rule_py_seed(ctx, py)
     rule_py_pure(ctx, py)
     rule_euler(ctx, tu, eff)
+    from .. import truth
+    truth.rule(ctx, "C08.TRUTH", ctx.py, ["rdscript", "simulate", "librdengine"], floor=10)
     ctx.assume("bit-identity across compilers / libm versions is not decided (same binary assumed); the sharing of the "
                "global simulation between engine objects is C10.ISOLATION")
